@@ -245,6 +245,15 @@ var probes = []string{
 	"3| in 1; setq v0; export v0; defun f0; export f0; in 0; use 1; rename 1; in 1; setq v0; rename 1; in 0; unuse 1",
 	"3| intern v0; in 1; setq v0; export v0; in 0; use 1; unintern v0; setq v0; unintern v0",
 	"3| in 1; setq v0; export v0; in 0; use 1; intern v0; unintern v0",
+	// a used package exports a name it does not define; the user unuses some
+	// package (used or never used) and then defines the name itself; a third
+	// package uses the user: the definition is the user's own and private
+	"!3| in 1; export v0; in 0; use 1; unuse 2; setq v0; in 2; use 0; in 1; setq v0; in 0",
+	"!3| in 1; export v0; in 0; use 1; unuse 2; defvar v0; in 2; use 0; in 1; setq v0; in 0",
+	"!3| in 1; export f0; in 0; use 1; unuse 2; defun f0; in 2; use 0; in 1; defun f0; in 0",
+	"!3| in 1; export v0; export f0; in 0; use 1; use 2; unuse 2; setq v0; defun f0; in 2; use 0",
+	"!3| in 1; export v0; export f0; in 0; use 2; use 1; unuse 2; defvar v0; defun f0; in 2; use 0; in 1; setq v0; defun f0",
+	"!3| in 1; export v0; export f0; in 0; use 1; setq v0; defun f0; in 2; use 0",
 	// a symbol that exists (interned, unexported) before its definition
 	"3| in 1; use 0; in 0; intern f0; defun f0; in 1",
 	"3| intern f0; defun f0; in 1; use 0",
@@ -1064,7 +1073,7 @@ func init() {
 		ID: "C13",
 		Rule: "a case is a history of package operations (in-package, use-package, unuse-package, export, unexport, setq, defvar, defun, makunbound, fmakunbound; " +
 			"in the long block also defpackage with :use/:export and, in a third of them, delete-package, rename-package, intern, unintern and the Go-level Import) over 3 user packages x 2 variable x 2 function names, run in fresh packages; " +
-			"block 0 = 68 hand-written probe histories (seed-independent; the strict ones pass through an avoided class but must hold); " +
+			"block 0 = 74 hand-written probe histories (seed-independent; the strict ones pass through an avoided class but must hold); " +
 			"block 1 = EVERY history of length 1..4 (quick) / 1..5 (thorough) up to renaming of packages and names (bounded-exhaustive: 73 246 / 1 520 638 cases; " +
 			"each looks at the state before and after its last operation, its prefixes being cases of their own); " +
 			"block 2 = seeded histories of length 5..8 (sampled, NOT exhaustive: the stated bound 8 is only reached this way); " +
